@@ -71,7 +71,7 @@ pub fn campaign(target: &str, prop: &str, opts: &Opts, runs: u64) -> Result<Valu
     let _ = std::fs::remove_dir_all(&artifacts);
     std::fs::create_dir_all(&artifacts).ok();
     let mut c = cargo_fuzz(&["run", target, "--fuzz-dir", "fuzz", &corpus, "--"]);
-    c.arg(format!("-runs={}", runs)).arg(format!("-seed={}", (opts.seed % 0xffff_fff0) + 1)).arg("-len_control=0").arg("-max_len=512").arg("-timeout=20").arg("-rss_limit_mb=4096").arg(format!("-artifact_prefix={}", artifacts)).arg("-print_final_stats=1");
+    c.arg(format!("-runs={}", runs)).arg(format!("-seed={}", (opts.seed % 0xffff_fff0) + 1)).arg("-len_control=0").arg("-max_len=512").arg("-timeout=60").arg("-rss_limit_mb=4096").arg(format!("-artifact_prefix={}", artifacts)).arg("-print_final_stats=1");
     c.env("VERIF_FUZZ_PROP", prop).env("ASAN_OPTIONS", "detect_leaks=0:abort_on_error=1");
     let start = std::time::Instant::now();
     let out = c.output().map_err(|e| e.to_string())?;
@@ -80,7 +80,12 @@ pub fn campaign(target: &str, prop: &str, opts: &Opts, runs: u64) -> Result<Valu
     let execs = stat("stat::number_of_executed_units:").unwrap_or(0);
     let cov = err.lines().rev().find_map(|l| l.split(" cov: ").nth(1).and_then(|r| r.split_whitespace().next()).and_then(|v| v.parse::<u64>().ok())).unwrap_or(0);
     let mut failures = vec![];
-    if !out.status.success() {
+    let mut notes: Vec<String> = vec![];
+    let timed_out = err.contains("ERROR: libFuzzer: timeout") || err.contains("ERROR: libFuzzer: out-of-memory");
+    if !out.status.success() && timed_out {
+        // a slow or memory-hungry input is inconclusive, never a violation
+        notes.push(format!("libFuzzer stopped on a timeout / memory limit after {} executions: campaign inconclusive beyond that point", execs));
+    } else if !out.status.success() {
         let artifact = std::fs::read_dir(&artifacts).ok().and_then(|mut d| d.next()).and_then(|e| e.ok()).map(|e| e.path().to_string_lossy().to_string());
         let msg = err
             .lines()
@@ -102,7 +107,7 @@ pub fn campaign(target: &str, prop: &str, opts: &Opts, runs: u64) -> Result<Valu
     }
     Ok(json!({
         "evaluations": execs, "nontrivial": [], "classes": {"fuzz-executions": execs, "fuzz-coverage-edges": cov}, "samples": [json!({"engine": "libFuzzer (cargo-fuzz, AddressSanitizer)", "target": target, "property": prop, "runs": execs, "coverage_edges": cov, "start_corpus": "48 deterministic pseudo-random inputs of 8..272 bytes", "max_len": 512})],
-        "failures": failures, "known": {}, "excluded": {}, "exhaustive_parts": {}, "subjects": 0, "wall_s": start.elapsed().as_secs_f64(), "notes": [],
+        "failures": failures, "known": {}, "excluded": {}, "exhaustive_parts": {}, "subjects": 0, "wall_s": start.elapsed().as_secs_f64(), "notes": notes,
     }))
 }
 
